@@ -185,7 +185,13 @@ WF(toks, mode) == Denote(toks, mode).wf
 
 
 \* the spelled parts of values agree with their pieces (consistency of a generated rendering)
+\* spelled text of the maximal run of character-data tokens ending at token j
+RECURSIVE RunSpelling(_, _)
+RunSpelling(toks, j) == IF j = 0 \/ toks[j].k # "text" THEN <<>> ELSE RunSpelling(toks, j - 1) \o Spell(toks[j].pieces)
 SpellingConsistent(toks) ==
+    \* a raw "]]>" must not be formed across adjacent character-data tokens (they are one run of text in the source)
+    /\ \A j \in 1..Len(toks) : (toks[j].k = "text" /\ PiecesOk(toks[j].pieces, FALSE, 0) /\ (j = Len(toks) \/ toks[j + 1].k # "text"))
+                                   => NoCdataEnd(RunSpelling(toks, j)) \/ \E q \in 1..j : toks[q].k = "text" /\ ~PiecesOk(toks[q].pieces, FALSE, 0)
     /\ \A j \in 1..(Len(toks) - 1) :      \* adjacent character-data tokens do not split a CR LF pair
           (toks[j].k = "text" /\ toks[j + 1].k = "text" /\ toks[j].pieces # <<>> /\ toks[j + 1].pieces # <<>>)
             => ~(toks[j].pieces[Len(toks[j].pieces)].t = "eol" /\ toks[j].pieces[Len(toks[j].pieces)].e = "cr"
